@@ -741,3 +741,14 @@ Example cp_unresolved_examples :
   cp_parse nat Nat.add Nat.sub Nat.mul Nat.div (fun x => x) (fun a b => (a + b) / 2) 0 1 2
     [(3, CExpr nat (EId nat 4)); (4, CExpr nat (EId nat 3))] = CPNoProgress nat.
 Proof. vm_compute. split; reflexivity. Qed.
+
+(** ** the binary64 instance (Coq's primitive floats), used to cross-check the extracted model whose
+    arithmetic is supplied by the OCaml driver *)
+From Coq Require Import Floats.
+Definition cp_get_float (d : list (nat * float)) (l : list (nat * cp_val float)) (n : nat)
+  : option (list (option float)) :=
+  match cp_get_constants float PrimFloat.add PrimFloat.sub PrimFloat.mul PrimFloat.div PrimFloat.opp
+          (fun a b => (0x1p-1 * (a + b))%float) 0 1 2 d l with
+  | Some st => Some (map st (seq 0 n))
+  | None => None
+  end.
